@@ -117,9 +117,12 @@ Definition kf_event_vs_rule_write (clients : list (list json)) : bool :=
                                  (is_write_op x && has_prefix "r" (jfS "id" x)) in
                      ((ev a && (rw b || ev b)) || (ev b && rw a)) && overlap a b) (cross_pairs clients).
 
-(** D52: an item written by the set-up phase has expired when the clients run: the first reads of
-    several clients purge it concurrently (Get without the lock, Search/FindRules under the read lock) *)
-Definition kf_concurrent_purge (setup : list json) (clients : list (list json)) : bool :=
+(** (was D52, repaired) an item written by the set-up phase has expired when the clients run: the
+    first reads of several clients used to purge it concurrently (Get without the lock,
+    Search/FindRules under the read lock).  Now the readers only note the id and purge it under the
+    write lock: such histories are linearizable, the predicate explains nothing any more and only
+    the feature is kept. *)
+Definition expired_at_release (setup : list json) (clients : list (list json)) : bool :=
   (1 <? length clients)%nat &&
   existsb (fun o => let e := Z.max (fact_expires (jget_d "fact" o)) (fact_expires (jget_d "rule" o)) in
                     (0 <? e) && existsb (fun cl => existsb (fun x => e <=? jfZ "t" x) cl) clients) setup.
@@ -128,12 +131,12 @@ Definition check_conc (c : json) : json :=
   let sy0 := init_system (jfL "locs" c) in
   let clients := map jL (jfL "clients" c) in
   let crashed := jfS "crashed" c in
-  (* D46 (rule cache) is repaired in /repo: its predicate explains nothing any more, only the feature is kept *)
-  let kfs := ((if kf_same_id_writes clients then ["D44"] else []) ++
-              (if kf_concurrent_purge (jfL "setup" c) clients then ["D52"] else []))%list in
+  (* D46 (rule cache) and D52 (purge by the readers) are repaired: their predicates explain nothing
+     any more, only the features are kept *)
+  let kfs := (if kf_same_id_writes clients then ["D44"] else []) in
   let feats := ((if kf_same_id_writes clients then ["overlapping-writes-same-id"] else []) ++
                 (if kf_event_vs_rule_write clients then ["event-overlaps-rule-write"] else []) ++
-                (if kf_concurrent_purge (jfL "setup" c) clients then ["expired-at-release"] else []) ++
+                (if expired_at_release (jfL "setup" c) clients then ["expired-at-release"] else []) ++
                 (if existsb (fun ab => overlap (fst ab) (snd ab)) (cross_pairs clients) then ["overlap"] else ["no-overlap"]))%list in
   if negb (String.eqb crashed "") then
     JObj [("ok", JBool false); ("at", JNull);
@@ -141,9 +144,8 @@ Definition check_conc (c : json) : json :=
           ("model", JNull); ("spec_ok", JBool false);
           ("spec_why", JStr (String.append "crash or deadlock under concurrent requests: " crashed));
           ("spec_op", JStr "no-crash");
-          (* (the child's observations are lost with it: the generator's flag says whether items expire at release) *)
-          ("kf", jstrs_of (if (jfB "expiring" c && (1 <? length clients)%nat) || kf_concurrent_purge (jfL "setup" c) clients
-                           then ["D52"] else []));
+          (* (a crash under concurrent requests is explained by no known finding since the repair of D52) *)
+          ("kf", JArr []);
           ("features", jstrs_of ("crashed" :: feats)); ("nontrivial", JBool true); ("ambiguous", JNum 0)]
   else
   match replay_all sy0 (jfL "setup" c) with
